@@ -9,7 +9,7 @@ namespace glm
 		vec<3, T, Q> const N(0.31f,  0.8124f, 0.01063f);
 		vec<3, T, Q> const O(0.490f, 0.01f, 0.99f);
 
-		return (M * ColorLinearSRGB + N * ColorLinearSRGB + O * ColorLinearSRGB) * static_cast<T>(5.650675255693055f);
+		return (M * ColorLinearSRGB.x + N * ColorLinearSRGB.y + O * ColorLinearSRGB.z) * static_cast<T>(5.650675255693055f);
 	}
 
 	template<typename T, qualifier Q>
@@ -19,7 +19,7 @@ namespace glm
 		vec<3, T, Q> const N(0.385101860087134f, 0.716942745571917f, 0.097076381494207f);
 		vec<3, T, Q> const O(0.143067806654203f, 0.060618777416563f, 0.713926257896652f);
 
-		return M * ColorLinearSRGB + N * ColorLinearSRGB + O * ColorLinearSRGB;
+		return M * ColorLinearSRGB.x + N * ColorLinearSRGB.y + O * ColorLinearSRGB.z;
 	}
 
 	template<typename T, qualifier Q>
@@ -29,7 +29,7 @@ namespace glm
 		vec<3, T, Q> const N(-0.15866f, 0.25243f, 0.015708f);
 		vec<3, T, Q> const O(0.0009209f, -0.0025498f, 0.1786f);
 
-		return M * ColorD65XYZ + N * ColorD65XYZ + O * ColorD65XYZ;
+		return M * ColorD65XYZ.x + N * ColorD65XYZ.y + O * ColorD65XYZ.z;
 	}
 
 	template<typename T, qualifier Q>
@@ -39,7 +39,7 @@ namespace glm
 		vec<3, T, Q> const N(+0.022898981050086f, +0.990508028941971f, +0.015072338237051f);
 		vec<3, T, Q> const O(-0.050206647741605f, -0.017074711360960f, +0.751717835079977f);
 
-		return M * ColorD65XYZ + N * ColorD65XYZ + O * ColorD65XYZ;
+		return M * ColorD65XYZ.x + N * ColorD65XYZ.y + O * ColorD65XYZ.z;
 	}
 
 }//namespace glm
